@@ -33,6 +33,26 @@ def extra(rep, tier_, rng):
                 pass
             if complex(z) != complex(f, g):
                 rep.violation("complex(mpc(c)) != c", {"fn": "complex(mpc)", "re": repr(f), "im": repr(g)})
+    # complex(z): each component converted independently (finite real part must survive an infinite/huge/nan imaginary part)
+    for re in (1.0, -2.5, 0.0, 1e300):
+        for im_obj, want_im in ((mp.inf, math.inf), (mp.ninf, -math.inf), (mp.mpf(2) ** 3000, math.inf), (-mp.mpf(2) ** 1024, -math.inf), (mp.nan, None), (mp.mpf(3), 3.0)):
+            for z, order in ((mp.mpc(re, im_obj), "re-finite"), (mp.mpc(im_obj, re), "im-finite")):
+                c = complex(z); checked += 1
+                fin_part, other = (c.real, c.imag) if order == "re-finite" else (c.imag, c.real)
+                okf = fin_part == re
+                oko = (other != other) if want_im is None else (other == want_im)
+                if not (okf and oko):
+                    rep.violation("complex(mpc) does not convert the components independently", {"fn": "complex(mpc)", "z": repr(z), "got": repr(c)})
+    for f in ctxcases.EDGE_DOUBLES:
+        x = mp.mpf(f); checked += 1
+        if (mpf_value(x._mpf_) if x._mpf_[1] else Fraction(0)) != Fraction(f) or float(x) != f or is_special(x._mpf_):
+            rep.violation("edge double not converted exactly", {"fn": "mpf(float)", "bits": struct.pack(">d", f).hex()})
+        z = mp.mpc(complex(f, -f)); checked += 1
+        if complex(z) != complex(f, -f):
+            rep.violation("edge double not converted exactly in mpc", {"fn": "mpc(complex)", "bits": struct.pack(">d", f).hex()})
+        y = mp.mpf(1) + f; checked += 1    # mixed operand path converts the float too
+        if is_special(y._mpf_):
+            rep.violation("finite float operand became inf/nan in mixed arithmetic", {"fn": "mpf+float", "bits": struct.pack(">d", f).hex()})
     for big in (mp.mpf(2) ** 1024, mp.mpf(10) ** 400, -mp.mpf(2) ** 5000):
         checked += 1
         if float(big) != (math.inf if big > 0 else -math.inf):
